@@ -22,6 +22,7 @@ func init() {
 			{ID: "C19.1", Desc: "index append is de-duplicated by response id", Run: ruleC19_1, MinSites: 1},
 			{ID: "C19.2", Desc: "invalidation is complete", Run: func(c *Ctx) { ruleC07_4(c); renameRule(c, "C07.4", "C19.2") }, MinSites: 4},
 			{ID: "C19.3", Desc: "ids are a function of key and selecting values", Run: func(c *Ctx) { ruleIDPure(c, "C19.3") }, MinSites: 1},
+			{ID: "C19.5", Desc: "values written to the JSON index survive the encoding", Run: func(c *Ctx) { ruleIndexValuesUTF8Safe(c, "C19.5") }, MinSites: 1},
 		},
 	})
 	register(&Property{
@@ -60,12 +61,8 @@ func ruleC19_1(c *Ctx) {
 	sr := c.A.F("storeResp")
 	var appends []ssa.Instruction
 	instrsOf(sr, func(in ssa.Instruction) {
-		if call, ok := in.(*ssa.Call); ok {
-			if b, ok := call.Call.Value.(*ssa.Builtin); ok && b.Name() == "append" && len(call.Call.Args) > 0 {
-				if sl, ok := call.Call.Args[0].Type().Underlying().(*types.Slice); ok && isPtrToNamed(sl.Elem(), c.A.RefT) {
-					appends = append(appends, in)
-				}
-			}
+		if c.isNewRecordAppend(in) {
+			appends = append(appends, in)
 		}
 	})
 	desc := "a record is appended to the index only when no record with the same response id exists"
@@ -140,6 +137,11 @@ func ruleC19_1(c *Ctx) {
 					okCond = true // error / nil-slice checks
 				}
 			}
+			if ex, isEx := dc.cond.(*ssa.Extract); isEx && ex.Index == 0 && !dc.onTrue {
+				if _, isNext := ex.Tuple.(*ssa.Next); isNext {
+					okCond = true // the exit of an earlier range loop (exhausted iteration), not a decision
+				}
+			}
 			if !okCond {
 				c.Fail("C19.1", "append-deduplicated", desc, c.P.InstrPos(searchCall)+": the de-duplicating search runs only under an extra condition (`"+dc.cond.String()+"` at "+c.P.Pos(dc.cond.Pos())+"); for other never-matching variants (e.g. `Vary: Accept-Language, *`) the index still grows with every request")
 				return
@@ -151,10 +153,175 @@ func ruleC19_1(c *Ctx) {
 	} else {
 		c.Fail("C19.1", "append-deduplicated", desc, c.P.InstrPos(appends[0])+": a search by id exists ("+where+") but the append does not depend on its outcome")
 	}
+	ruleC19_1replace(c, sr)
 }
 
-// dependsOnSearch: cond depends on something computed from comparing response ids (slices.IndexFunc result, loop flag).
+// ruleC19_1replace: when the new record overwrites the element at the matched position, that element may have described a
+// different variant (the origin changed its Vary); another record of the variant just written may already be listed. Every
+// path from the overwriting store to the index write must therefore pass a comparison of listed ids with the new id (a
+// call of a predicate that compares the id field, or a loop containing one).
+func ruleC19_1replace(c *Ctx, sr *ssa.Function) {
+	desc := "after a record is overwritten in place, other records of the same variant are dropped before the index is written"
+	var stores []ssa.Instruction
+	instrsOf(sr, func(in ssa.Instruction) {
+		st, ok := in.(*ssa.Store)
+		if !ok {
+			return
+		}
+		ia, ok := st.Addr.(*ssa.IndexAddr)
+		if !ok {
+			return
+		}
+		if sl, ok := ia.X.Type().Underlying().(*types.Slice); ok && isPtrToNamed(sl.Elem(), c.A.RefT) {
+			// the overwrite of an existing position with the new record (not the copy loop of a filter)
+			if _, isAlloc := c.An.canon(st.Val).(*ssa.Alloc); isAlloc {
+				stores = append(stores, in)
+			}
+		}
+	})
+	if len(stores) == 0 {
+		c.Pass("C19.1", "replace-deduplicated", desc, c.P.ShortName(sr)+": no record is overwritten in place")
+		return
+	}
+	isIDLoad := func(v ssa.Value) bool {
+		if u, ok := v.(*ssa.UnOp); ok {
+			if fa, ok := u.X.(*ssa.FieldAddr); ok && c.An.IsRefIDField(fa) {
+				return true
+			}
+		}
+		return false
+	}
+	idCmpFn := map[*ssa.Function]bool{}
+	for _, f := range c.reachableFrom(sr) {
+		instrsOf(f, func(in ssa.Instruction) {
+			if b, ok := in.(*ssa.BinOp); ok && (b.Op == token.EQL || b.Op == token.NEQ) && (isIDLoad(b.X) || isIDLoad(b.Y)) {
+				idCmpFn[f] = true
+			}
+		})
+	}
+	isCmp := func(in ssa.Instruction) bool {
+		if b, ok := in.(*ssa.BinOp); ok && (b.Op == token.EQL || b.Op == token.NEQ) && (isIDLoad(b.X) || isIDLoad(b.Y)) {
+			return true
+		}
+		ci, ok := in.(ssa.CallInstruction)
+		if !ok {
+			return false
+		}
+		for _, cal := range c.P.Callees(ci) {
+			if cal != sr && idCmpFn[cal] {
+				return true
+			}
+		}
+		// a predicate handed to a library search/filter helper
+		for _, a := range ci.Common().Args {
+			if _, isSig := a.Type().Underlying().(*types.Signature); isSig {
+				fns, _ := c.P.funcValueRoots(a, nil)
+				for _, f := range fns {
+					if idCmpFn[f] {
+						return true
+					}
+				}
+			}
+		}
+		return false
+	}
+	// blocks that belong to a loop containing a comparison: entering the loop counts
+	cmpBlocks := map[*ssa.BasicBlock]bool{}
+	instrsOf(sr, func(in ssa.Instruction) {
+		if isCmp(in) {
+			cmpBlocks[in.Block()] = true
+		}
+	})
+	inCmpLoop := func(b *ssa.BasicBlock) bool {
+		for cb := range cmpBlocks {
+			if cb == b || reachableAvoiding(b, cb, nil) && reachableAvoiding(cb, b, nil) {
+				return true
+			}
+		}
+		return false
+	}
+	isWrite := func(in ssa.Instruction) bool { return c.An.CallsRole(in, "writeIndex") }
+	for _, st := range stores {
+		// forward search from the store to an index write that avoids every comparison
+		bad := ""
+		seen := map[*ssa.BasicBlock]bool{}
+		var walk func(b *ssa.BasicBlock, from int)
+		walk = func(b *ssa.BasicBlock, from int) {
+			if bad != "" {
+				return
+			}
+			if from == 0 {
+				if seen[b] {
+					return
+				}
+				seen[b] = true
+				if inCmpLoop(b) {
+					return
+				}
+			}
+			for _, in := range b.Instrs[from:] {
+				if isCmp(in) {
+					return
+				}
+				if isWrite(in) {
+					bad = c.P.InstrPos(in)
+					return
+				}
+			}
+			for _, s := range b.Succs {
+				walk(s, 0)
+			}
+		}
+		idx := 0
+		for i, in := range st.Block().Instrs {
+			if in == st {
+				idx = i + 1
+			}
+		}
+		walk(st.Block(), idx)
+		if bad == "" {
+			c.Pass("C19.1", "replace-deduplicated", desc, c.P.InstrPos(st)+": every path to the index write compares the listed ids with the new id")
+		} else {
+			c.Fail("C19.1", "replace-deduplicated", desc, c.P.InstrPos(st)+": the index write at "+bad+" is reachable from the in-place overwrite without comparing the other records with the new id; an origin alternating `Vary: *` and `Vary: X-Flavor` leaves duplicates behind and the index grows by one record per two requests")
+		}
+	}
+}
+
+// dependsOnSearch: cond depends on the outcome of a search by response id: the result of slices.IndexFunc/ContainsFunc
+// applied with a predicate that compares the id field, or a variable carried by a loop whose body compares the id field.
 func (an *Analysis) dependsOnSearch(cond ssa.Value, sr *ssa.Function) bool {
+	isIDLoad := func(v ssa.Value) bool {
+		if u, ok := v.(*ssa.UnOp); ok {
+			if fa, ok := u.X.(*ssa.FieldAddr); ok && an.IsRefIDField(fa) {
+				return true
+			}
+		}
+		return false
+	}
+	cmpIn := func(f *ssa.Function) bool {
+		found := false
+		instrsOf(f, func(in ssa.Instruction) {
+			if b, ok := in.(*ssa.BinOp); ok && (b.Op == token.EQL || b.Op == token.NEQ) && (isIDLoad(b.X) || isIDLoad(b.Y)) {
+				found = true
+			}
+		})
+		return found
+	}
+	blockCompares := func(b *ssa.BasicBlock) bool {
+		for _, in := range b.Instrs {
+			if bo, ok := in.(*ssa.BinOp); ok && (bo.Op == token.EQL || bo.Op == token.NEQ) && (isIDLoad(bo.X) || isIDLoad(bo.Y)) {
+				return true
+			}
+			if ci, ok := in.(ssa.CallInstruction); ok {
+				for _, cal := range an.P.Callees(ci) {
+					if cal != sr && cmpIn(cal) {
+						return true
+					}
+				}
+			}
+		}
+		return false
+	}
 	hit := false
 	an.P.TraceBack(cond, TraceOpts{ThroughOps: true, ThroughExtern: true, NoParams: true, NoHeapFields: true}, func(v ssa.Value, _ []int) bool {
 		switch x := v.(type) {
@@ -164,19 +331,23 @@ func (an *Analysis) dependsOnSearch(cond ssa.Value, sr *ssa.Function) bool {
 				if o := sc.Origin(); o != nil {
 					n = o.String()
 				}
-				if strings.HasPrefix(n, "slices.IndexFunc") || strings.HasPrefix(n, "slices.ContainsFunc") {
-					hit = true
+				if (strings.HasPrefix(n, "slices.IndexFunc") || strings.HasPrefix(n, "slices.ContainsFunc")) && len(x.Call.Args) == 2 {
+					fns, _ := an.P.funcValueRoots(x.Call.Args[1], nil)
+					for _, f := range fns {
+						if cmpIn(f) {
+							hit = true
+						}
+					}
 				}
 			}
 		case *ssa.Phi:
-			// a loop-carried index/flag set where ids compare equal
-			for _, e := range x.Edges {
-				if _, ok := e.(*ssa.Const); !ok {
-					hit = hit || false
+			// a loop-carried index/flag of a hand-written search loop
+			if x.Parent() == sr && blockInCycle(x.Block()) {
+				for _, b := range sr.Blocks {
+					if (b == x.Block() || reachableAvoiding(b, x.Block(), nil) && reachableAvoiding(x.Block(), b, nil)) && blockCompares(b) {
+						hit = true
+					}
 				}
-			}
-			if x.Comment != "" && x.Parent() == sr {
-				hit = true
 			}
 		}
 		return !hit
